@@ -107,6 +107,40 @@ def _rt_batch(arg):
     return viols, n, nontriv
 
 
+def term_datasets(t):
+    """Datasets that carry one varied term: as object in the default graph and in a named graph, as a list member in a named graph; IRIs also as
+    subject, predicate and graph name."""
+    A, P, G = I("a"), I("p"), I("g1")
+    FIRST = ["I", "http://www.w3.org/1999/02/22-rdf-syntax-ns#first", None, None]
+    REST = ["I", "http://www.w3.org/1999/02/22-rdf-syntax-ns#rest", None, None]
+    NIL = ["I", "http://www.w3.org/1999/02/22-rdf-syntax-ns#nil", None, None]
+    out = [("object", [(A, P, t, None), (A, P, t, G)]),
+           ("list-member-in-named-graph", [(A, P, B("c1"), G), (B("c1"), FIRST, A, G), (B("c1"), REST, B("c2"), G), (B("c2"), FIRST, t, G), (B("c2"), REST, NIL, G)])]
+    if t[0] == "I":
+        out.append(("subject+predicate", [(t, P, A, G), (A, t, A, None)]))
+        out.append(("graph-name", [(A, P, A, t), (A, P, I("b"), None)]))
+    return out
+
+
+def _term_batch(arg):
+    from . import C03
+    terms, formats = arg
+    viols = []
+    n = 0
+    for t in terms:
+        tc = C03.term_class(t)
+        for emb, quads in term_datasets(t):
+            for fmt in formats:
+                if fmt == "trix" and t[0] == "L" and any(ord(c) < 0x20 and c not in "\t\n\r" for c in t[1]):
+                    continue  # XML 1.0 cannot carry the character
+                n += 1
+                v = roundtrip(quads, fmt)
+                if v:
+                    viols.append({"sig": "%s|%s|term:%s" % (fmt, v[0], tc), "detail": v[1],
+                                  "case": {"quads": [[list(x) if x is not None else None for x in q] for q in quads], "format": fmt, "term_class": tc}})
+    return viols, n
+
+
 def patch_diff(q1, q2, horizon=10.0):
     d1 = dataset_from(q1)
     d2 = dataset_from(q2)
@@ -143,6 +177,15 @@ def run(ctx):
         ctx.add("evaluations", n)
         ctx.add("distinct_nontrivial", nt)
     ctx.cov["datasets"] = len(dss)
+    # the term table of C03 through the quad syntaxes (TriG / TriX / N-Quads / RDF Patch / HexTuples are reachable only with datasets)
+    from . import C03
+    terms = C03.term_table(3 if thorough else 2, thorough)
+    res = R.pmap(_term_batch, [(sh, FORMATS) for sh in R.shards(terms, ctx.jobs * 8)], ctx.jobs)
+    for viols, n in res:
+        ctx.extend(viols)
+        ctx.add("evaluations", n)
+        ctx.add("distinct_nontrivial", n)
+    ctx.cov["terms"] = len(terms)
     # patch diffs over the sub-universe of the first two triples (no blank nodes: exact) / first three (thorough: up to iso)
     sub = list(universe(3 if thorough else 2))
     pairs = [(a, b) for a in sub for b in sub]
@@ -153,7 +196,7 @@ def run(ctx):
         ctx.add("patch_diff_pairs", n)
     ctx.cov["exhaustive"] = True
     ctx.cov["rule"] = ("every assignment of %d universe triples (IRI/literal/blank nodes b1,b2) to subsets of {default, <g1>, _:gb} (%d datasets) x "
-                       "{nquads, trig, trix, json-ld, hext, patch}; RDF Patch diff for every ordered pair of the %d-dataset sub-universe. Non-trivial: shared "
+                       "{nquads, trig, trix, json-ld, hext, patch}; every term of the C03 table (strings over two alphabets in every literal kind, lexical tables, IRI and datatype tables) as object in the default and a named graph, as a list member in a named graph, IRIs also as subject / predicate / graph name, through the same formats; RDF Patch diff for every ordered pair of the %d-dataset sub-universe. Non-trivial: shared "
                        "triple, blank node across graphs, blank-node-named graph or empty default graph." % (5 if thorough else 4, len(dss), len(sub)))
     ctx.sample({"quads": [[list(x) if x is not None else None for x in q] for q in dss[len(dss) // 2]], "format": "trig"})
     ctx.assumptions += ["quads compared up to ONE blank-node bijection that also maps graph names; HexTuples modulo simple literal = xsd:string",
@@ -165,6 +208,10 @@ def _q(q):
 
 
 def replay(ctx, case):
+    if "quads" in case and case.get("term_class"):
+        quads = _q(case["quads"])
+        v = roundtrip(quads, case["format"], horizon=60.0)
+        return [{"sig": "%s|%s|term:%s" % (case["format"], v[0], case["term_class"]), "case": case, "detail": v[1]}] if v else []
     if "quads" in case:
         quads = _q(case["quads"])
         v = roundtrip(quads, case["format"], horizon=60.0)
